@@ -159,7 +159,8 @@ impl<A: Send + 'static> Cell<A> {
                                 is_first
                             });
                             if is_first {
-                                sodium_ctx.post(move || {
+                                // commit before the deferred work of this transaction (the post queue) runs
+                                sodium_ctx.pre_post(move || {
                                     c.with_data(|data: &mut CellData<A>| {
                                         let mut next_value_op: Option<A> = None;
                                         mem::swap(&mut next_value_op, &mut data.next_value_op);
